@@ -24,7 +24,11 @@ from .. import build
 LEVEL = "exploration"
 RULE = ("prim: every primitive x length 0..3*field digits x selector bit/data pattern, trace compared with the reference "
         "pattern of that length; reg: every (routine, parameter set) x scalars of the full bit length of the order in classes "
-        "{random, Hamming weight 1/2/L-1, long zero runs, even/odd, low window digits zero, alternating}; a case is non-trivial "
+        "{random, Hamming weight 1/2/L-1, long zero runs, even/odd, low window digits zero, alternating; for the GLS routines "
+        "also zero/one/maximal digits of the base-|x| expansion}, plus groups of scalars of EQUAL shorter bit length (small "
+        "lengths, 63..65, around L/2, L-65..L-1, the lengths where k+n / k+2n change bit length, a sample of the rest; all "
+        "lengths when thorough) for curve routines and exponentiation ladders alike: the group-level call trace must be "
+        "constant within a group; a case is non-trivial "
         "when the secret differs from the reference secret; distinct = distinct (routine, parameter set, secret)")
 ASSUMPTIONS = ["the -O2 instrumented build has the same control flow at basic-block/call level as the shipped -O2 build",
                "group level = calls made directly from functions whose name starts with the routine family's prefix",
